@@ -38,6 +38,7 @@ def run(idx: Index, rep: Report, tier: str) -> None:
             continue
         defs = du.rd.get(n, {}).get(d.id, set())
         k = 0
+        seen_txt = {}
         for dn in sorted(defs, key=lambda x: x.lineno):
             if dn is cfg.entry:
                 continue
@@ -51,7 +52,9 @@ def run(idx: Index, rep: Report, tier: str) -> None:
             p = cfg.path_avoiding(dn, n, {x for x in defs if x is not dn})
             if p is None:
                 continue
-            rep.check(ok, rule1, f"duration chosen on the path through `{norm(dn.ast)[:50]}` depends on duration.lower", f.loc(dn.ast), construct=f"{norm(dn.ast)} reaches {norm(c)[:60]}", detail="" if ok else "the duration is chosen without looking at the lower bound (for a left-open interval ]5, 10] the minimal time step 1/100 is used, which is outside the interval)", function=f.qualname, path=path_text(p))
+            seen_txt[norm(dn.ast)] = seen_txt.get(norm(dn.ast), 0) + 1
+            tag = "" if seen_txt[norm(dn.ast)] == 1 else f" (occurrence {seen_txt[norm(dn.ast)]})"
+            rep.check(ok, rule1, f"duration chosen on the path through `{norm(dn.ast)[:50]}`{tag} depends on duration.lower", f.loc(dn.ast), construct=f"{norm(dn.ast)}{tag} reaches {norm(c)[:60]}", detail="" if ok else "the duration is chosen without looking at the lower bound (for a left-open interval ]5, 10] the minimal time step 1/100 is used, which is outside the interval)", function=f.qualname, path=path_text(p))
     rule2 = "C28.2 T1 upper-bound-consulted"
     attrs = {norm(n) for n in walk_no_nested(f.node) if isinstance(n, ast.Attribute)}
     calls = {call_name(c) for c in walk_no_nested(f.node) if isinstance(c, ast.Call)}
